@@ -154,6 +154,14 @@ def preamble(ctx, race=False, modules=None):
 
 def audit(ctx, modules=None):
     if ctx.lake_failed:
+        # nothing is discharged while the build is broken: list the obligations as open
+        for m in (modules or [ctx.prop]):
+            try:
+                src = open(os.path.join(R.LEAN, 'RoProps', m + '.lean')).read()
+            except OSError:
+                continue
+            for name in re.findall(r'^#print axioms\s+(\S+)', src, flags=re.M):
+                ctx.obligations.append((name, False, None))
         return
     for m in (modules or [ctx.prop]):
         R.axiom_audit(ctx, m)
